@@ -59,6 +59,12 @@ pub struct CsvFile {
     /// case / with padding (the layout is a function of this seed).
     #[serde(default)]
     pub layout_seed: u64,
+    /// lines end in CR LF
+    #[serde(default)]
+    pub crlf: bool,
+    /// the file starts with a UTF-8 byte-order mark
+    #[serde(default)]
+    pub bom: bool,
 }
 
 impl CsvFile {
@@ -108,8 +114,10 @@ impl CsvFile {
                 };
             }
         }
-        let mut s = order.iter().map(|i| names[*i].clone()).collect::<Vec<_>>().join(",");
-        s.push('\n');
+        let nl = if self.crlf { "\r\n" } else { "\n" };
+        let mut s = if self.bom { "\u{feff}".to_string() } else { String::new() };
+        s.push_str(&order.iter().map(|i| names[*i].clone()).collect::<Vec<_>>().join(","));
+        s.push_str(nl);
         for r in &self.rows {
             // RFC 4180 quoting for cells that need it (memos with commas, quotes, line breaks)
             let cells: Vec<String> = order
@@ -118,7 +126,7 @@ impl CsvFile {
                 .map(|c| if c.contains(',') || c.contains('"') || c.contains('\n') { format!("\"{}\"", c.replace('"', "\"\"")) } else { c })
                 .collect();
             s.push_str(&cells.join(","));
-            s.push('\n');
+            s.push_str(nl);
         }
         s
     }
@@ -192,7 +200,7 @@ pub fn parse_date(s: &str) -> Date {
 }
 
 const SECS: [&str; 11] = ["FOO", "BAR", "XYZ", "VFV.TO", "QQQ", "ZAG", "MMM", "AAPL", "T", "XIC.TO", "BNS"];
-const AFFS: [&str; 5] = ["Default", "Default (R)", "Spouse", "Spouse (R)", "Kid"];
+const AFFS: [&str; 10] = ["Default", "Default (R)", "Spouse", "Spouse (R)", "Kid", "Trust", "Holdco Inc.", "O'Neil-2", "Kid (R)", "M\u{e8}re"];
 
 struct AfState {
     shares: i64, // in thousandths
@@ -250,7 +258,8 @@ pub fn generate(seed: u64, k_seeds: usize) -> Sc {
         let i = secs.len() - 1;
         secs[i] = *r.pick(&["RY:TO", "BRK/B", "A*B", "WHY?", "A|B", "T<X>"]);
     }
-    let n_aff = r.weighted(&[2, 3, 3, 2]) + 1;
+    // 1-4 affiliates, now and then up to 8
+    let n_aff = if r.chance(1, 12) { r.range(5, 8) as usize } else { r.weighted(&[2, 3, 3, 2]) + 1 };
     let mut affs: Vec<&str> = AFFS[1..].to_vec();
     r.shuffle(&mut affs);
     affs.truncate(n_aff - 1);
@@ -585,6 +594,22 @@ pub fn generate(seed: u64, k_seeds: usize) -> Sc {
             }
         }
     }
+    // Now and then a row appears twice (a copy-paste slip), or carries very large / many-digit figures.
+    if r.chance(1, 15) && !all_rows.is_empty() {
+        let i = r.below(all_rows.len() as u64) as usize;
+        let dup = all_rows[i].clone();
+        all_rows.insert(i + 1, dup);
+    }
+    if r.chance(1, 15) {
+        for (_, row) in all_rows.iter_mut() {
+            if matches!(row[C_ACTION].to_lowercase().as_str(), "buy") && r.chance(1, 4) {
+                row[C_AMT] = (*r.pick(&["123456789.99", "0.0000012345", "99999.123456789"])).to_string();
+            }
+            if !row[C_FX].is_empty() && r.chance(1, 4) {
+                row[C_FX] = "1.3141592653".to_string();
+            }
+        }
+    }
     // A fifth of the inputs write some share counts with trailing zeros ("10.0", "2.50"): the same
     // number at another scale, which Decimal keeps and some cells print.
     if r.chance(1, 5) {
@@ -599,7 +624,7 @@ pub fn generate(seed: u64, k_seeds: usize) -> Sc {
         }
     }
     let n_files = (r.below(3) + 1) as usize;
-    let mut files: Vec<CsvFile> = (0..n_files).map(|i| CsvFile { name: format!("tx{}.csv", i + 1), extra_cols: vec![], rows: vec![], layout_seed: 0 }).collect();
+    let mut files: Vec<CsvFile> = (0..n_files).map(|i| CsvFile { name: format!("tx{}.csv", i + 1), extra_cols: vec![], rows: vec![], layout_seed: 0, crlf: false, bom: false }).collect();
     let per = all_rows.len().div_ceil(n_files).max(1);
     for (i, (_, row)) in all_rows.into_iter().enumerate() {
         files[(i / per).min(n_files - 1)].rows.push(row);
@@ -636,13 +661,16 @@ pub fn generate(seed: u64, k_seeds: usize) -> Sc {
     // Sometimes one more file that has a header and no rows.
     if r.chance(1, 12) {
         let pos = r.below(files.len() as u64 + 1) as usize;
-        files.insert(pos, CsvFile { name: "empty.csv".to_string(), extra_cols: vec![], rows: vec![], layout_seed: 0 });
+        files.insert(pos, CsvFile { name: "empty.csv".to_string(), extra_cols: vec![], rows: vec![], layout_seed: 0, crlf: false, bom: false });
     }
-    // A quarter of the files permute their columns and spell the header names differently.
+    // A quarter of the files permute their columns and spell the header names differently; some
+    // come from Windows (CR LF line ends, now and then a byte-order mark).
     for f in files.iter_mut() {
         if r.chance(1, 4) {
             f.layout_seed = r.next_u64() | 1;
         }
+        f.crlf = r.chance(1, 8);
+        f.bom = r.chance(1, 30);
     }
     // the summary date: inside the history, or (1 in 8) before its first / after its last transaction
     let sum_day = match r.below(16) {
@@ -1443,6 +1471,12 @@ impl Engine for C09 {
             c.push(s);
         }
         for (fi, f) in sc.files.iter().enumerate() {
+            if f.crlf || f.bom {
+                let mut s = sc.clone();
+                s.files[fi].crlf = false;
+                s.files[fi].bom = false;
+                c.push(s);
+            }
             if f.layout_seed != 0 {
                 let mut s = sc.clone();
                 s.files[fi].layout_seed = 0;
